@@ -45,6 +45,10 @@ CHECKS = {
          "Writer output must equal the reference rendering (correct weekday) and parse back to the same whole-second instant (second 60 preserved) and offset. Every grammar-generated string must be accepted with exactly the denoted value, both by parse_from_rfc2822 and by the Fixed::RFC2822 format item, and its twin with a contradicting weekday must be rejected. For mutated/arbitrary text only: no panic, and agreement with the reference reader when both accept (the statement claims nothing about rejection there).",
          "Trusted base: harness/src/refmodel/rfc2822.rs (independent reader written from the grammar comment) and R-cal; the generator's intended value is cross-checked against the reference reader on every case.",
          "DESIGN.md section 3 C11"),
+ "C12": ("exhaustive sweep of the documented specifier table x 4 padding modifiers over a fixed value list (first/last 10 days of years covering all 14 year types, signed and 5-6 digit years, leap seconds, offsets with seconds) + proptest random format strings incl. must-fail shapes and multi-byte literals, differential against an independent reference strftime (R-fmt)",
+         "Every documented specifier with every modifier is rendered for thousands of values of all four formattable kinds (date, time, naive date-time, zone-aware incl. headroom wall clocks) and compared character by character with a reference renderer written from the documentation table; random format strings built from specifiers, literals, white space, %% and malformed specifiers must either render exactly the reference text or fail exactly when the reference says so (unknown/malformed specifier, modifier on a non-numeric or composite specifier, field the value lacks).",
+         "Trusted base: harness/src/refmodel/strftime.rs (tokenizer + renderer, ~300 lines) and R-cal. Not asserted (documentation silent): %y/%g for negative years, %Z for offsets with seconds, %#z when formatting; the sign/padding interplay follows the stated assumption in the evidence.",
+         "DESIGN.md section 3 C12"),
  "C17": ("proptest over stamps inside/outside the i64-nanosecond window, log-uniform/tie-making/invalid spans, offsets and digit counts, differential against floor/ceil arithmetic on i128 wall-clock stamps",
          "duration_trunc/round/round_up on NaiveDateTime and DateTime<FixedOffset> must return exactly floor/ceil/nearest-ties-up multiples of the span on the wall-clock stamp with the offset kept, be idempotent while the result stays inside the window, and report DurationExceedsLimit / TimestampExceedsLimit exactly for the three stated causes, never panicking (incl. headroom wall clocks); round_subsecs/trunc_subsecs on NaiveTime, NaiveDateTime and DateTime for all digit counts with carry. Leap-second operands: no panic, valid values, sub-second idempotence only.",
          "Trusted base: i128 div_euclid arithmetic (harness/src/props/c17.rs).",
